@@ -850,3 +850,58 @@ impl CommanderIds {
         }
     }
 }
+
+#[cfg(swimos_verif)]
+pub mod verif_hooks {
+    //! Facade over the private [`CommandOutput`] for the verification harness.
+    use super::{CmdChannelWriter, CommandOutput};
+    use futures::future::BoxFuture;
+    use futures::FutureExt;
+    use swimos_api::address::RelativeAddress;
+    use swimos_model::Text;
+    use swimos_utilities::byte_channel::ByteWriter;
+    use swimos_utilities::future::RetryStrategy;
+    use uuid::Uuid;
+
+    pub struct CommandWriter(CmdChannelWriter);
+    pub type CommandWrite = BoxFuture<'static, Result<CommandWriter, std::io::Error>>;
+
+    pub struct CommandOutputHarness(CommandOutput);
+
+    impl CommandOutputHarness {
+        pub fn new(identity: Uuid) -> Self {
+            CommandOutputHarness(CommandOutput::new(identity, RetryStrategy::none()))
+        }
+
+        pub fn set_channel(&mut self, sender: ByteWriter) {
+            self.0.replace_writer(CmdChannelWriter::new(sender));
+        }
+
+        pub fn replace_writer(&mut self, writer: CommandWriter) {
+            self.0.replace_writer(writer.0);
+        }
+
+        pub fn append(&mut self, node: &str, lane: &str, body: &[u8], overwrite_permitted: bool) {
+            let key = RelativeAddress::new(Text::new(node), Text::new(lane));
+            self.0.append(&key, body, overwrite_permitted);
+        }
+
+        pub fn write(&mut self) -> Option<CommandWrite> {
+            self.0
+                .write()
+                .map(|fut| fut.map(|r| r.map(CommandWriter)).boxed())
+        }
+
+        pub fn has_writer(&self) -> bool {
+            self.0.writer.is_some()
+        }
+
+        pub fn into_pending(self) -> Vec<(String, String, Vec<u8>)> {
+            self.0
+                .into_pending()
+                .into_iter()
+                .map(|(addr, buf)| (addr.node.to_string(), addr.lane.to_string(), buf.to_vec()))
+                .collect()
+        }
+    }
+}
